@@ -109,7 +109,7 @@ def _gen_index_case(ch: core.Chooser) -> dict:
             case["bound_dtype"] = "uint16"
     if c2.chance(0.03):
         # the largest expansions of the quantified domain (beyond a thousand terms)
-        case.update(dimensions=4, stop=c2.choice([6, [6, 6, 6, 5], [5, 6, 6, 6]]), start=0, cross_truncation="inf", big=True)
+        case.update(dimensions=4, stop=c2.choice([6, [6, 6, 6, 5], [5, 6, 6, 6], 6]), start=0, cross_truncation=c2.choice(["inf", 2, 2, 1]), big=True)
         case.pop("abort_first", None)
     if c2.chance(0.2):
         # an allocation request made inside the call fails (MemoryError at the k-th one): the call may raise, but a
